@@ -503,10 +503,28 @@ Judge(s, e) ==
     [] e.ev = "pm_create_pool" -> JudgeCreatePool(s, e, e.post)
     [] e.ev = "pm_update_config" -> JudgeUpdateConfig(s, e, e.post)
 
+(* ------------------------------------------------------------------ replayed TLC behaviours (MC_Pool, MC_Pool_sim.cfg) *)
+(* the event carries the state MC_Pool predicts after the step: reserves, supply and switches of pools A and B, and the
+   balance changes of both users and the fee collector since the start. Equality is exact: the model's formulas
+   (Pools.tla with integers) are the contract's formulas. *)
+ModelPoolAgrees(p, q, m) ==
+  LET id == "o." \o q IN
+  /\ id \in DOMAIN Pools(p)
+  /\ Pools(p)[id].res = <<BNat(m.r1), BNat(m.r2)>> /\ Pools(p)[id].supply = BNat(m.supply)
+  /\ Pools(p)[id].sw = m.sw /\ Pools(p)[id].dep = m.dep /\ Pools(p)[id].wd = m.wd
+ModelGuards(e, p) ==
+  IF "model" \in DOMAIN e /\ e.model.set
+  THEN LET m == e.model.post IN
+       [ M_model_step_accepted |-> Must(e.ok),
+         C04_model_reserves_and_supply_agree |-> G(e.ok, \A q \in DOMAIN m.pools : ModelPoolAgrees(p, q, m.pools[q])),
+         C02_model_lp_balances_agree |-> G(e.ok, \A a \in DOMAIN m.bank : m.bank[a].lpA = e.model.delta[a].lpA /\ m.bank[a].lpB = e.model.delta[a].lpB),
+         C04_model_balances_agree |-> G(e.ok, \A a \in DOMAIN m.bank : \A d \in {"d1", "d2", "d3"} : m.bank[a][d] = e.model.delta[a][d]) ]
+  ELSE NoGuards
+
 Init == l = 1 /\ cnt = NoGuards /\ st = [none |-> TRUE]
 Step == /\ l <= Len(Rec)
         /\ LET e == Rec[l]
-               gs == Judge(st, e) @@ (IF e.ev = "reset" \/ ~HasPost(e) THEN NoGuards ELSE Invariants(st, e, e.post))
+               gs == Judge(st, e) @@ (IF e.ev = "reset" \/ ~HasPost(e) THEN NoGuards ELSE Invariants(st, e, e.post) @@ ModelGuards(e, e.post))
            IN /\ Report(e.i, e.sc, gs)
               /\ cnt' = Count(cnt, gs)
               /\ st' = IF HasPost(e) THEN e.post ELSE st
